@@ -1,6 +1,8 @@
 /-
-  From the invariants to statements about the whole run `loadDir`: which modules are listed
-  (as a function of the SET of files), independence of the enumeration order.
+  From the invariants to statements about the whole run `loadDirG`: which modules are listed
+  (as a function of the SET of files), independence of the enumeration order.  Generic in the
+  replacement rule `beats` and the comparison function `cmp`; instantiated for the code as it is
+  (`beatsPrio`, `cmpF`) here and for the proposed repair of F17-TIE in Mod/TieLemmas.lean.
 -/
 import PdshVerif.Mod.RegLemmas
 import PdshVerif.Mod.SortLemmas
@@ -28,12 +30,36 @@ theorem nodup_map_of_inj_on {α β : Type} (f : α → β) {l : List α} (hn : l
     subst this
     exact hn.1 hx
 
-/-- the hypotheses under which the outcome is a function of the set of files -/
+/-- the hypotheses under which the outcome is a function of the set of files, for a replacement
+    rule and a comparison function -/
+structure DistinctG (beats : Beats) (cmp : Mod → Mod → Int) (uid owner pers : Nat) (files : List File) : Prop
+    extends RegHyp uid owner pers files where
+  /-- two different loadable modules with the same type and name: one of them beats the other -/
+  total : ∀ f ∈ files, ∀ g ∈ files, ∀ c c', cand uid owner pers f = some c → cand uid owner pers g = some c' →
+            c.key = c'.key → ¬ beats.rel c c' → ¬ beats.rel c' c → c = c'
+  /-- two different loadable modules of different type or name never compare equal -/
+  skey  : ∀ f ∈ files, ∀ g ∈ files, ∀ c c', cand uid owner pers f = some c → cand uid owner pers g = some c' →
+            cmp c c' = 0 → c.key = c'.key ∨ c = c'
+
+/-- the hypotheses for the code as it is -/
 structure Distinct (uid owner pers : Nat) (files : List File) : Prop extends RegHyp uid owner pers files where
   /-- no two loadable modules with the same priority and name (whatever their types): excludes equal-priority
       duplicates and ties of `_cmp_f` (else: finding F17-TIE) -/
   ties : ∀ f ∈ files, ∀ g ∈ files, ∀ c c', cand uid owner pers f = some c → cand uid owner pers g = some c' →
            c.prio = c'.prio → c.name = c'.name → c = c'
+
+theorem Distinct.toG {uid owner pers : Nat} {files : List File} (h : Distinct uid owner pers files) :
+    DistinctG beatsPrio cmpF uid owner pers files := by
+  refine ⟨h.toRegHyp, ?_, ?_⟩
+  · intro f hf g hg c c' hc hc' hk h1 h2
+    simp only [Beats.rel, beatsPrio, decide_eq_true_eq] at h1 h2
+    have hn : c.name = c'.name := by
+      have := congrArg Prod.snd hk
+      simpa [Mod.key] using this
+    exact h.ties f hf g hg c c' hc hc' (by omega) hn
+  · intro f hf g hg c c' hc hc' h0
+    have := cmpF_eq_zero c c' h0
+    exact Or.inr (h.ties f hf g hg c c' hc hc' this.1 this.2)
 
 theorem RegHyp.perm {uid owner pers : Nat} {fs₁ fs₂ : List File} (hp : fs₁.Perm fs₂)
     (h : RegHyp uid owner pers fs₁) : RegHyp uid owner pers fs₂ := by
@@ -41,20 +67,23 @@ theorem RegHyp.perm {uid owner pers : Nat} {fs₁ fs₂ : List File} (hp : fs₁
   intro f hf k hk g hg c hc
   exact h.foreign f (hp.mem_iff.mpr hf) k hk g (hp.mem_iff.mpr hg) c hc
 
-theorem Distinct.perm {uid owner pers : Nat} {fs₁ fs₂ : List File} (hp : fs₁.Perm fs₂)
-    (h : Distinct uid owner pers fs₁) : Distinct uid owner pers fs₂ := by
-  refine ⟨h.toRegHyp.perm hp, ?_⟩
-  intro f hf g hg c c' hc hc'
-  exact h.ties f (hp.mem_iff.mpr hf) g (hp.mem_iff.mpr hg) c c' hc hc'
+theorem DistinctG.perm {beats : Beats} {cmp : Mod → Mod → Int} {uid owner pers : Nat} {fs₁ fs₂ : List File}
+    (hp : fs₁.Perm fs₂) (h : DistinctG beats cmp uid owner pers fs₁) :
+    DistinctG beats cmp uid owner pers fs₂ := by
+  refine ⟨h.toRegHyp.perm hp, ?_, ?_⟩
+  · intro f hf g hg c c' hc hc'
+    exact h.total f (hp.mem_iff.mpr hf) g (hp.mem_iff.mpr hg) c c' hc hc'
+  · intro f hf g hg c c' hc hc'
+    exact h.skey f (hp.mem_iff.mpr hf) g (hp.mem_iff.mpr hg) c c' hc hc'
 
 /-- which modules are in the list after the directory was read: the loadable files that are not
     beaten by a loadable file with the same type and name -/
-theorem mem_mods_iff {uid owner pers : Nat} {files : List File} (h : Distinct uid owner pers files)
-    (m : Mod) :
-    m ∈ (loadFiles uid owner pers files).mods ↔
+theorem mem_mods_iff {beats : Beats} (hord : BeatsOrd beats) {cmp : Mod → Mod → Int} {uid owner pers : Nat}
+    {files : List File} (h : DistinctG beats cmp uid owner pers files) (m : Mod) :
+    m ∈ (loadFilesG beats uid owner pers files).mods ↔
       (∃ f ∈ files, cand uid owner pers f = some m) ∧
-      ∀ g ∈ files, ∀ c, cand uid owner pers g = some c → c.key = m.key → c.prio ≤ m.prio := by
-  have inv := regInv_final uid owner pers files h.toRegHyp
+      ∀ g ∈ files, ∀ c, cand uid owner pers g = some c → c.key = m.key → ¬ beats.rel c m := by
+  have inv := regInv_final hord uid owner pers files h.toRegHyp
   constructor
   · intro hm
     refine ⟨inv.r1 m hm, ?_⟩
@@ -66,21 +95,18 @@ theorem mem_mods_iff {uid owner pers : Nat} {files : List File} (h : Distinct ui
     obtain ⟨m', hm', hk', hle⟩ := inv.r2 f hf m hfc
     obtain ⟨g, hg, hgc⟩ := inv.r1 m' hm'
     have hle' := hmax g hg m' hgc hk'
-    have hp : m'.prio = m.prio := by omega
-    have hn : m'.name = m.name := by
-      have := congrArg Prod.snd hk'
-      simpa [Mod.key] using this
-    have := h.ties g hg f hf m' m hgc hfc hp hn
+    have := h.total g hg f hf m' m hgc hfc hk' hle' hle
     subst this; exact hm'
 
-theorem mods_nodup {uid owner pers : Nat} {files : List File} (h : RegHyp uid owner pers files) :
-    (loadFiles uid owner pers files).mods.Nodup :=
-  nodup_of_nodup_map Mod.key (regInv_final uid owner pers files h).r3
+theorem mods_nodup {beats : Beats} (hord : BeatsOrd beats) {uid owner pers : Nat} {files : List File}
+    (h : RegHyp uid owner pers files) : (loadFilesG beats uid owner pers files).mods.Nodup :=
+  nodup_of_nodup_map Mod.key (regInv_final hord uid owner pers files h).r3
 
-theorem mods_files_nodup {uid owner pers : Nat} {files : List File} (h : RegHyp uid owner pers files) :
-    ((loadFiles uid owner pers files).mods.map (·.file)).Nodup := by
-  have inv := regInv_final uid owner pers files h
-  apply nodup_map_of_inj_on _ (mods_nodup h)
+theorem mods_files_nodup {beats : Beats} (hord : BeatsOrd beats) {uid owner pers : Nat} {files : List File}
+    (h : RegHyp uid owner pers files) :
+    ((loadFilesG beats uid owner pers files).mods.map (·.file)).Nodup := by
+  have inv := regInv_final hord uid owner pers files h
+  apply nodup_map_of_inj_on _ (mods_nodup hord h)
   intro a ha b hb hab
   obtain ⟨f, hf, hfc⟩ := inv.r1 a ha
   obtain ⟨g, hg, hgc⟩ := inv.r1 b hb
@@ -90,21 +116,24 @@ theorem mods_files_nodup {uid owner pers : Nat} {files : List File} (h : RegHyp 
   subst this
   rw [hfc] at hgc; simpa using hgc
 
-theorem mods_inactive {uid owner pers : Nat} {files : List File} (h : RegHyp uid owner pers files) :
-    ∀ m ∈ (loadFiles uid owner pers files).mods, m.active = false := by
+theorem mods_inactive {beats : Beats} (hord : BeatsOrd beats) {uid owner pers : Nat} {files : List File}
+    (h : RegHyp uid owner pers files) :
+    ∀ m ∈ (loadFilesG beats uid owner pers files).mods, m.active = false := by
   intro m hm
-  obtain ⟨f, _, hfc⟩ := (regInv_final uid owner pers files h).r1 m hm
+  obtain ⟨f, _, hfc⟩ := (regInv_final hord uid owner pers files h).r1 m hm
   exact (cand_file hfc).2
 
 /-- the sorted module list does not depend on the enumeration order -/
-theorem sorted_perm_invariant {uid owner pers : Nat} {fs₁ fs₂ : List File} (hp : fs₁.Perm fs₂)
-    (h : Distinct uid owner pers fs₁) :
-    listSort cmpF (loadFiles uid owner pers fs₁).mods = listSort cmpF (loadFiles uid owner pers fs₂).mods := by
+theorem sorted_perm_invariant {beats : Beats} (hord : BeatsOrd beats) {cmp : Mod → Mod → Int}
+    (hcmp : TotalPre cmp) {uid owner pers : Nat} {fs₁ fs₂ : List File} (hp : fs₁.Perm fs₂)
+    (h : DistinctG beats cmp uid owner pers fs₁) :
+    listSort cmp (loadFilesG beats uid owner pers fs₁).mods =
+      listSort cmp (loadFilesG beats uid owner pers fs₂).mods := by
   have h2 := h.perm hp
-  have inv1 := regInv_final uid owner pers fs₁ h.toRegHyp
-  apply listSort_unique cmpF_totalPre _ _ (mods_nodup h.toRegHyp) (mods_nodup h2.toRegHyp)
+  have inv1 := regInv_final hord uid owner pers fs₁ h.toRegHyp
+  apply listSort_unique hcmp _ _ (mods_nodup hord h.toRegHyp) (mods_nodup hord h2.toRegHyp)
   · intro m
-    rw [mem_mods_iff h, mem_mods_iff h2]
+    rw [mem_mods_iff hord h, mem_mods_iff hord h2]
     constructor
     · rintro ⟨⟨f, hf, hfc⟩, hmax⟩
       exact ⟨⟨f, hp.mem_iff.mp hf, hfc⟩, fun g hg => hmax g (hp.mem_iff.mpr hg)⟩
@@ -113,61 +142,152 @@ theorem sorted_perm_invariant {uid owner pers : Nat} {fs₁ fs₂ : List File} (
   · intro a ha b hb hab h0
     obtain ⟨f, hf, hfc⟩ := inv1.r1 a ha
     obtain ⟨g, hg, hgc⟩ := inv1.r1 b hb
-    have := cmpF_eq_zero a b h0
-    exact hab (h.ties f hf g hg a b hfc hgc this.1 this.2)
+    rcases h.skey f hf g hg a b hfc hgc h0 with hk | he
+    · exact hab (key_unique inv1.r3 ha hb hk)
+    · exact hab he
 
-theorem count_perm_invariant {uid owner pers : Nat} {fs₁ fs₂ : List File} (hp : fs₁.Perm fs₂)
-    (h : RegHyp uid owner pers fs₁) :
-    ((loadFiles uid owner pers fs₁).count = 0) ↔ ((loadFiles uid owner pers fs₂).count = 0) := by
-  rw [(regInv_final uid owner pers fs₁ h).r5, (regInv_final uid owner pers fs₂ (h.perm hp)).r5]
+theorem count_perm_invariant {beats : Beats} (hord : BeatsOrd beats) {uid owner pers : Nat}
+    {fs₁ fs₂ : List File} (hp : fs₁.Perm fs₂) (h : RegHyp uid owner pers fs₁) :
+    ((loadFilesG beats uid owner pers fs₁).count = 0) ↔ ((loadFilesG beats uid owner pers fs₂).count = 0) := by
+  rw [(regInv_final hord uid owner pers fs₁ h).r5, (regInv_final hord uid owner pers fs₂ (h.perm hp)).r5]
   constructor
   · intro hh f hf; exact hh f (hp.mem_iff.mpr hf)
   · intro hh f hf; exact hh f (hp.mem_iff.mp hf)
 
-theorem opened_perm_invariant {uid owner pers : Nat} {fs₁ fs₂ : List File} (hp : fs₁.Perm fs₂)
-    (h : RegHyp uid owner pers fs₁) :
-    (loadFiles uid owner pers fs₁).opened.Perm (loadFiles uid owner pers fs₂).opened := by
-  rw [(regInv_final uid owner pers fs₁ h).op, (regInv_final uid owner pers fs₂ (h.perm hp)).op]
+theorem opened_perm_invariant {beats : Beats} (hord : BeatsOrd beats) {uid owner pers : Nat}
+    {fs₁ fs₂ : List File} (hp : fs₁.Perm fs₂) (h : RegHyp uid owner pers fs₁) :
+    (loadFilesG beats uid owner pers fs₁).opened.Perm (loadFilesG beats uid owner pers fs₂).opened := by
+  rw [(regInv_final hord uid owner pers fs₁ h).op, (regInv_final hord uid owner pers fs₂ (h.perm hp)).op]
   exact (hp.filter _).map _
 
-/-! ### unfolding `loadDir` -/
+/-! ### unfolding `loadDirG` -/
 
-theorem loadDir_fatal_owner (e : Env) (d : Dir) (h : e.owner = none) :
-    loadDir e d = ⟨true, [], [], baseOpts e.pers, [], []⟩ := by
-  unfold loadDir; simp [h]
+theorem loadDir_fatal_owner (beats : Beats) (cmp : Mod → Mod → Int) (e : Env) (d : Dir) (h : e.owner = none) :
+    loadDirG beats cmp e d = ⟨true, [], [], baseOpts e.pers, [], []⟩ := by
+  unfold loadDirG; simp [h]
 
-theorem loadDir_fatal_path (e : Env) (d : Dir) (owner : Nat) (h : e.owner = some owner)
-    (hp : pathOk e.uid owner d.path = false) :
-    loadDir e d = ⟨true, [], [], baseOpts e.pers, [], []⟩ := by
-  unfold loadDir; simp [h, hp]
+theorem loadDir_fatal_path (beats : Beats) (cmp : Mod → Mod → Int) (e : Env) (d : Dir) (owner : Nat)
+    (h : e.owner = some owner) (hp : pathOk e.uid owner d.path = false) :
+    loadDirG beats cmp e d = ⟨true, [], [], baseOpts e.pers, [], []⟩ := by
+  unfold loadDirG; simp [h, hp]
 
-theorem loadDir_fatal_count (e : Env) (d : Dir) (owner : Nat) (h : e.owner = some owner)
-    (hp : pathOk e.uid owner d.path = true) (hc : (loadFiles e.uid owner e.pers d.files).count = 0) :
-    loadDir e d = ⟨true, [], [], baseOpts e.pers, (loadFiles e.uid owner e.pers d.files).opened, []⟩ := by
-  unfold loadDir; simp [h, hp, hc]
+theorem loadDir_fatal_count (beats : Beats) (cmp : Mod → Mod → Int) (e : Env) (d : Dir) (owner : Nat)
+    (h : e.owner = some owner) (hp : pathOk e.uid owner d.path = true)
+    (hc : (loadFilesG beats e.uid owner e.pers d.files).count = 0) :
+    loadDirG beats cmp e d =
+      ⟨true, [], [], baseOpts e.pers, (loadFilesG beats e.uid owner e.pers d.files).opened, []⟩ := by
+  unfold loadDirG; simp [h, hp, hc]
 
-theorem loadDir_ok (e : Env) (d : Dir) (owner : Nat) (h : e.owner = some owner)
-    (hp : pathOk e.uid owner d.path = true) (hc : (loadFiles e.uid owner e.pers d.files).count ≠ 0) :
-    loadDir e d =
-      ⟨false, (initPhase e.pers e.misc (listSort cmpF (loadFiles e.uid owner e.pers d.files).mods)).1,
-        (initPhase e.pers e.misc (listSort cmpF (loadFiles e.uid owner e.pers d.files).mods)).2.calls,
-        (initPhase e.pers e.misc (listSort cmpF (loadFiles e.uid owner e.pers d.files).mods)).2.opts,
-        (loadFiles e.uid owner e.pers d.files).opened,
-        (initPhase e.pers e.misc (listSort cmpF (loadFiles e.uid owner e.pers d.files).mods)).2.regs⟩ := by
-  unfold loadDir; simp [h, hp, hc]
+theorem loadDir_ok (beats : Beats) (cmp : Mod → Mod → Int) (e : Env) (d : Dir) (owner : Nat)
+    (h : e.owner = some owner) (hp : pathOk e.uid owner d.path = true)
+    (hc : (loadFilesG beats e.uid owner e.pers d.files).count ≠ 0) :
+    loadDirG beats cmp e d =
+      ⟨false, (initPhase e.pers e.misc (listSort cmp (loadFilesG beats e.uid owner e.pers d.files).mods)).1,
+        (initPhase e.pers e.misc (listSort cmp (loadFilesG beats e.uid owner e.pers d.files).mods)).2.calls,
+        (initPhase e.pers e.misc (listSort cmp (loadFilesG beats e.uid owner e.pers d.files).mods)).2.opts,
+        (loadFilesG beats e.uid owner e.pers d.files).opened,
+        (initPhase e.pers e.misc (listSort cmp (loadFilesG beats e.uid owner e.pers d.files).mods)).2.regs⟩ := by
+  unfold loadDirG; simp [h, hp, hc]
 
 /-- a run that is not fatal went through all stages -/
-theorem loadDir_nonfatal (e : Env) (d : Dir) (hnf : (loadDir e d).fatal = false) :
+theorem loadDir_nonfatal (beats : Beats) (cmp : Mod → Mod → Int) (e : Env) (d : Dir)
+    (hnf : (loadDirG beats cmp e d).fatal = false) :
     ∃ owner, e.owner = some owner ∧ pathOk e.uid owner d.path = true ∧
-      (loadFiles e.uid owner e.pers d.files).count ≠ 0 := by
+      (loadFilesG beats e.uid owner e.pers d.files).count ≠ 0 := by
   cases ho : e.owner with
-  | none => rw [loadDir_fatal_owner e d ho] at hnf; simp at hnf
+  | none => rw [loadDir_fatal_owner beats cmp e d ho] at hnf; simp at hnf
   | some owner =>
     cases hp : pathOk e.uid owner d.path with
-    | false => rw [loadDir_fatal_path e d owner ho hp] at hnf; simp at hnf
+    | false => rw [loadDir_fatal_path beats cmp e d owner ho hp] at hnf; simp at hnf
     | true =>
-      by_cases hc : (loadFiles e.uid owner e.pers d.files).count = 0
-      · rw [loadDir_fatal_count e d owner ho hp hc] at hnf; simp at hnf
+      by_cases hc : (loadFilesG beats e.uid owner e.pers d.files).count = 0
+      · rw [loadDir_fatal_count beats cmp e d owner ho hp hc] at hnf; simp at hnf
       · exact ⟨owner, rfl, hp, hc⟩
+
+/-- the outcome is the same for every enumeration order (the dlopen log up to order) -/
+theorem perm_invariantG {beats : Beats} (hord : BeatsOrd beats) {cmp : Mod → Mod → Int} (hcmp : TotalPre cmp)
+    (e : Env) (p : List (Option FStat)) (fs₁ fs₂ : List File) (hp : fs₁.Perm fs₂)
+    (hd : ∀ owner, e.owner = some owner → DistinctG beats cmp e.uid owner e.pers fs₁) :
+    (loadDirG beats cmp e ⟨p, fs₁⟩).fatal = (loadDirG beats cmp e ⟨p, fs₂⟩).fatal ∧
+    (loadDirG beats cmp e ⟨p, fs₁⟩).mods = (loadDirG beats cmp e ⟨p, fs₂⟩).mods ∧
+    (loadDirG beats cmp e ⟨p, fs₁⟩).calls = (loadDirG beats cmp e ⟨p, fs₂⟩).calls ∧
+    (loadDirG beats cmp e ⟨p, fs₁⟩).opts = (loadDirG beats cmp e ⟨p, fs₂⟩).opts ∧
+    (loadDirG beats cmp e ⟨p, fs₁⟩).regs = (loadDirG beats cmp e ⟨p, fs₂⟩).regs ∧
+    (loadDirG beats cmp e ⟨p, fs₁⟩).opened.Perm (loadDirG beats cmp e ⟨p, fs₂⟩).opened := by
+  cases ho : e.owner with
+  | none =>
+    rw [loadDir_fatal_owner beats cmp e _ ho, loadDir_fatal_owner beats cmp e _ ho]; simp
+  | some owner =>
+    have hdist := hd owner ho
+    cases hpo : pathOk e.uid owner p with
+    | false =>
+      rw [loadDir_fatal_path beats cmp e ⟨p, fs₁⟩ owner ho hpo,
+        loadDir_fatal_path beats cmp e ⟨p, fs₂⟩ owner ho hpo]; simp
+    | true =>
+      have hcnt := count_perm_invariant hord hp hdist.toRegHyp
+      have hop := opened_perm_invariant hord hp hdist.toRegHyp
+      by_cases hc : (loadFilesG beats e.uid owner e.pers fs₁).count = 0
+      · rw [loadDir_fatal_count beats cmp e ⟨p, fs₁⟩ owner ho hpo hc,
+          loadDir_fatal_count beats cmp e ⟨p, fs₂⟩ owner ho hpo (hcnt.mp hc)]
+        simp [hop]
+      · have hc2 : (loadFilesG beats e.uid owner e.pers fs₂).count ≠ 0 := fun h => hc (hcnt.mpr h)
+        rw [loadDir_ok beats cmp e ⟨p, fs₁⟩ owner ho hpo hc, loadDir_ok beats cmp e ⟨p, fs₂⟩ owner ho hpo hc2]
+        simp only [sorted_perm_invariant hord hcmp hp hdist]
+        simp [hop]
+
+/-! ### personality first: the rewritten directory has no module of another personality -/
+
+theorem st_persFirst (pers : Nat) (f : File) : (persFirstFile pers f).st = f.st := by
+  unfold persFirstFile
+  split <;> rfl
+
+theorem obj_persFirst_mod (pers : Nat) (f : File) (d : Desc) (h : f.obj = .mod d) :
+    (persFirstFile pers f).obj = .mod (persFirstDesc pers d) := by
+  unfold persFirstFile
+  rw [h]
+
+theorem obj_persFirst_other (pers : Nat) (f : File) (h : ∀ d, f.obj ≠ .mod d) :
+    (persFirstFile pers f).obj = f.obj := by
+  unfold persFirstFile
+  split
+  · rename_i d hd; exact absurd hd (h d)
+  · rfl
+
+theorem secure_persFirst (uid owner pers : Nat) (f : File) :
+    secure uid owner (persFirstFile pers f) = secure uid owner f := by
+  unfold secure
+  rw [st_persFirst]
+
+theorem foreignKey_persFirst (uid owner pers : Nat) (f : File) :
+    foreignKey uid owner pers (persFirstFile pers f) = none := by
+  unfold foreignKey
+  rw [secure_persFirst]
+  split
+  · cases hobj : f.obj with
+    | noload => rw [obj_persFirst_other pers f (by intro d; rw [hobj]; simp), hobj]
+    | noinfo => rw [obj_persFirst_other pers f (by intro d; rw [hobj]; simp), hobj]
+    | mod d =>
+      rw [obj_persFirst_mod pers f d hobj]
+      simp only [persFirstDesc]
+      by_cases hp : d.pers &&& pers = 0
+      · simp [hp]
+      · simp only [hp, if_false]
+        cases d.type <;> cases d.name <;> simp [hp]
+  · rfl
+
+theorem fname_persFirst (pers : Nat) (f : File) : (persFirstFile pers f).fname = f.fname := by
+  unfold persFirstFile
+  split <;> rfl
+
+/-- after the rewriting only distinct file names are needed for the registration invariant -/
+theorem regHyp_persFirst (uid owner pers : Nat) (files : List File) (hn : (files.map (·.fname)).Nodup) :
+    RegHyp uid owner pers (files.map (persFirstFile pers)) := by
+  refine ⟨?_, ?_⟩
+  · simpa [List.map_map, Function.comp_def, fname_persFirst] using hn
+  · intro f hf k hk
+    simp only [List.mem_map] at hf
+    obtain ⟨f0, _, rfl⟩ := hf
+    rw [foreignKey_persFirst] at hk
+    cases hk
 
 end PdshVerif.Mod
